@@ -1,20 +1,10 @@
 (* Scratch: C04(a) — placeholders outside quoted identifiers are counted by a two-state scan;
    lemmas to push the count through the renderers' string templates *)
 Require Import Parser Render RenderStr RenderStr2.
+Require Export Count.
 From Coq Require Import List Ascii String ZArith Bool Lia Arith.
 Import ListNotations.
 Open Scope string_scope.
-
-Definition dq : ascii := """"%char.
-Definition qm : ascii := "?"%char.
-
-Fixpoint qst (inq : bool) (s : string) : bool :=
-  match s with EmptyString => inq | String c r => qst (if Ascii.eqb c dq then negb inq else inq) r end.
-Fixpoint qcnt (inq : bool) (s : string) : nat :=
-  match s with
-  | EmptyString => 0
-  | String c r => (if Ascii.eqb c qm && negb inq then 1 else 0) + qcnt (if Ascii.eqb c dq then negb inq else inq) r
-  end.
 
 Lemma qst_app : forall a b i, qst i (a ++ b) = qst (qst i a) b.
 Proof. induction a as [|c a IH]; intros b i; cbn; auto. Qed.
